@@ -350,8 +350,12 @@ def features(case, model):
     return f
 
 
+_ADMIN = ('unique:', 'isin:', 'flags:', 'tkind:', 'via:')
+
+
 def nontrivial(case, model):
-    return len(features(case, model)) >= 2 and model != 'BADCASE'
+    """reaches at least one planted feature other than the bookkeeping ones (category, flags, container kind)."""
+    return model != 'BADCASE' and any(not x.startswith(_ADMIN) for x in features(case, model))
 
 
 def known(case, impl, model, spec, mode):
